@@ -34,7 +34,7 @@ MIN_OBS = {"requests_issued": 5000, "rejected_with_documented_class": 5000, "poo
 CASE_TIMEOUT = 120
 EDITS = ["calc_missing", "sel_missing", "sort_missing", "proj_missing", "join_pred_missing", "calc_existing_tag", "chain_columns",
          "chain_engines", "join_engines", "unsupported_calc", "unsupported_sel", "unsupported_sort", "unsupported_join_pred",
-         "slice_negative", "slice_reversed", "slice_step", "slice_nonslice"]
+         "slice_negative", "slice_reversed", "slice_step", "slice_nonslice", "reused_predicate"]
 
 
 def budget(tier):
@@ -152,6 +152,19 @@ def run_case(case):
                         calls = [(o, lambda kw: rel.with_rows_satisfying(exprs.plib(["rcmp", "lt", ["ref", some], ["lit", 1], none_supported]), **kw)) for o in combos]
                     else:
                         calls = [(o, lambda kw: rel.sorted([R.SortTerm(exprs.elib(["rfn", "neg", [["ref", some]], none_supported]))], **kw)) for o in combos]
+                elif edit == "reused_predicate":
+                    # the same predicate OBJECT is first used where it is well-formed (a join whose other
+                    # operand supplies its column) and then where that column is missing
+                    if "a" in cols or rel.is_join_identity:
+                        continue
+                    fixed = rel.engine.make_leaf({T("a")}, iteration.RowSequence([{T("a"): 1}]) if isinstance(rel.engine, iteration.Engine) else db.make_table("rp", [T("a")], [{T("a"): 1}]), name=f"RP{nreq}")
+                    shared = exprs.plib(["and", [["cmp", "ge", ["ref", "a"], ["lit", 0]]] + ([["cmp", "le", ["ref", some], ["lit", 9]]] if some else []), "ctor"])
+                    try:
+                        rel.join(fixed, shared)
+                        c["reused_predicate_first_use_ok"] = c.get("reused_predicate_first_use_ok", 0) + 1
+                    except R.RelationalAlgebraError:
+                        pass
+                    calls = [(o, lambda kw, shared=shared: rel.with_rows_satisfying(shared, **kw)) for o in combos]
                 elif edit == "slice_negative":
                     expected = (ValueError, TypeError)
                     calls = [(None, lambda kw: rel[-1:2]), (None, lambda kw: rel[-2:])]
